@@ -151,7 +151,7 @@ fn set_nonblocking(fd: i32) {
     }
 }
 
-fn frame_of(req: &Request) -> Vec<u8> {
+pub fn frame_of(req: &Request) -> Vec<u8> {
     let mut v = Vec::new();
     crate::wire::write_frame(&mut v, req).unwrap_or_else(|e| machinery_error(format!("encode request: {e}")));
     v
@@ -929,6 +929,12 @@ enum LOp {
     ListRead(usize, String),   // per-path read split out of List op #
 }
 
+thread_local! {
+    /// Fault sessions only: an operation answered with an error reply is a no-op of the reference hub
+    /// (the environment failed under it); everywhere else an error reply to a legal write is unexplainable.
+    pub static ERRORS_ARE_NOOPS: std::cell::Cell<bool> = const { std::cell::Cell::new(false) };
+}
+
 /// In the flat reference hub a path "is a directory" when some live file lives beneath it.
 fn ref_is_dir(state: &Files, path: &str) -> bool {
     let pre = format!("{path}/");
@@ -1043,10 +1049,17 @@ fn dfs(state: Files, its: &[(LOp, usize, usize)], ops: &[OpRec], used: &mut Vec<
         let mut st = state.clone();
         let ok = match &its[i].0 {
             LOp::Real(oi) => {
-                let want = ref_apply(&mut st, &ops[*oi]);
-                match &ops[*oi].reply {
-                    None => true, // no reply observed (killed): only the effect counts
-                    Some(got) => clean_reply(got) == want,
+                let delete_of_dir = matches!(&ops[*oi].op, Op::Delete { path, .. } if ref_is_dir(&st, path));
+                if ERRORS_ARE_NOOPS.with(std::cell::Cell::get) && matches!(ops[*oi].reply, Some(Reply::Error(_))) && !matches!(ops[*oi].op, Op::Get { .. }) {
+                    true // refused because the environment failed: no effect
+                } else if delete_of_dir && matches!(ops[*oi].reply, Some(Reply::Error(_))) {
+                    true // a directory cannot be deleted as a file: refusing is as good as "nothing there"
+                } else {
+                    let want = ref_apply(&mut st, &ops[*oi]);
+                    match &ops[*oi].reply {
+                        None => true, // no reply observed (killed): only the effect counts
+                        Some(got) => clean_reply(got) == want,
+                    }
                 }
             }
             LOp::ListRead(oi, p) => {
